@@ -32,7 +32,7 @@ META = {
 # generated application logic
 # ------------------------------------------------------------------------------------------------
 
-def build_wsgi_app():
+def build_wsgi_app(hook=lambda: None):
     import falcon
     from falcon.routing import CompiledRouter
 
@@ -40,26 +40,38 @@ def build_wsgi_app():
         def process_request(self, req, resp):
             req.context.tag = req.get_header('X-Tag')
 
+        def process_resource(self, req, resp, resource, params):
+            # documented: process_resource may modify the params passed to the responder
+            params['tenant'] = req.get_header('X-Tag')
+
         def process_response(self, req, resp, resource, ok):
             resp.set_header('X-Echo-Tag', str(getattr(req.context, 'tag', None)))
 
+    class Pause:
+        """A later middleware in which the thread can be preempted (cooperative yield point)."""
+        def process_resource(self, req, resp, resource, params):
+            hook()
+
+        def process_response(self, req, resp, resource, ok):
+            hook()
+
     class Item:
-        def on_get(self, req, resp, x):
-            resp.media = {'route': 'a', 'x': x, 'q': req.get_param('q'), 'tag': req.context.tag,
+        def on_get(self, req, resp, x, tenant=None):
+            resp.media = {'route': 'a', 'x': x, 'q': req.get_param('q'), 'tag': req.context.tag, 'tenant': tenant,
                           'pref': req.client_prefers(['application/json', 'text/plain'])}
 
-        def on_post(self, req, resp, x):
+        def on_post(self, req, resp, x, tenant=None):
             doc = req.get_media()
-            resp.media = {'route': 'a', 'x': x, 'doc': doc, 'tag': req.context.tag}
+            resp.media = {'route': 'a', 'x': x, 'doc': doc, 'tag': req.context.tag, 'tenant': tenant}
 
     class Other:
-        def on_get(self, req, resp, y):
+        def on_get(self, req, resp, y, tenant=None):
             if y == 13:
                 raise falcon.HTTPBadRequest(title='unlucky', description=req.context.tag)
-            resp.media = {'route': 'b', 'y': y, 'tag': req.context.tag}
+            resp.media = {'route': 'b', 'y': y, 'tag': req.context.tag, 'tenant': tenant}
 
     router = CompiledRouter()
-    app = falcon.App(router=router, middleware=[Ctx()])
+    app = falcon.App(router=router, middleware=[Ctx(), Pause()])
     app.add_route('/a/{x:int}', Item())
     app.add_route('/b/{y:int}', Other())
     return app, router
@@ -74,29 +86,36 @@ def build_asgi_app(gate):
             req.context.tag = req.get_header('X-Tag')
             await gate()
 
+        async def process_resource(self, req, resp, resource, params):
+            params['tenant'] = req.get_header('X-Tag')
+
         async def process_response(self, req, resp, resource, ok):
             await gate()
             resp.set_header('X-Echo-Tag', str(getattr(req.context, 'tag', None)))
 
-    class Item:
-        async def on_get(self, req, resp, x):
+    class Pause:
+        async def process_resource(self, req, resp, resource, params):
             await gate()
-            resp.media = {'route': 'a', 'x': x, 'q': req.get_param('q'), 'tag': req.context.tag,
+
+    class Item:
+        async def on_get(self, req, resp, x, tenant=None):
+            await gate()
+            resp.media = {'route': 'a', 'x': x, 'q': req.get_param('q'), 'tag': req.context.tag, 'tenant': tenant,
                           'pref': req.client_prefers(['application/json', 'text/plain'])}
 
-        async def on_post(self, req, resp, x):
+        async def on_post(self, req, resp, x, tenant=None):
             doc = await req.get_media()
             await gate()
-            resp.media = {'route': 'a', 'x': x, 'doc': doc, 'tag': req.context.tag}
+            resp.media = {'route': 'a', 'x': x, 'doc': doc, 'tag': req.context.tag, 'tenant': tenant}
 
     class Other:
-        async def on_get(self, req, resp, y):
+        async def on_get(self, req, resp, y, tenant=None):
             if y == 13:
                 raise falcon.HTTPBadRequest(title='unlucky', description=req.context.tag)
             await gate()
-            resp.media = {'route': 'b', 'y': y, 'tag': req.context.tag}
+            resp.media = {'route': 'b', 'y': y, 'tag': req.context.tag, 'tenant': tenant}
 
-    app = falcon.asgi.App(middleware=[Ctx()])
+    app = falcon.asgi.App(middleware=[Ctx(), Pause()])
     app.add_route('/a/{x:int}', Item())
     app.add_route('/b/{y:int}', Other())
     return app
@@ -112,7 +131,14 @@ def request_pool():
         Req('GET', b'/b/13', b'', [('X-Tag', 't4')]),
         Req('GET', b'/a/nope', b'', [('X-Tag', 't5')]),
         Req('PUT', b'/b/2', b'', [('X-Tag', 't6')]),
+        Req('GET', b'/a/3', b'q=two', [('X-Tag', 't7'), ('Accept', 'text/plain')]),          # same path as #0
+        Req('POST', b'/a/5', b'', [('X-Tag', 't8'), ('Content-Type', 'application/json')], b'{"other": true}',
+            chunks=[3]),                                                                      # same path as #2
     ]
+
+
+NAMES = ['GET /a/3', 'GET /b/7', 'POST /a/5', 'GET /b/13 (400)', 'GET /a/nope (404)', 'PUT /b/2 (405)',
+         'GET /a/3 #2', 'POST /a/5 #2']
 
 
 def proj(res):
@@ -129,8 +155,17 @@ def run_threads(reqs, choices=(), prefer=None):
     import falcon.routing.compiled as C
     from engine import threadsched
     from engine.drivers import wsgi_call
-    app, router = build_wsgi_app()
+    import threading
+    holder = {}
+
+    def hook():
+        tid = getattr(threading.current_thread(), 'tid', None)
+        if tid is not None and 's' in holder:
+            holder['s'].yield_point(tid, 'app')
+
+    app, router = build_wsgi_app(hook)
     s = threadsched.Sched(len(reqs), C.__file__, choices, prefer)
+    holder['s'] = s
     results = [None] * len(reqs)
 
     class Shim:
@@ -306,9 +341,9 @@ def run(ctx):
     ctx.progress('leg M done')
 
     pool = request_pool()
-    names = ['GET /a/3', 'GET /b/7', 'POST /a/5', 'GET /b/13 (400)', 'GET /a/nope (404)', 'PUT /b/2 (405)']
-    pairs = [(0, 1), (2, 1), (0, 3), (4, 2), (5, 0), (1, 1)]
-    triples = [(0, 1, 2), (3, 4, 5), (2, 0, 1)]
+    names = NAMES
+    pairs = [(0, 1), (0, 6), (2, 7), (2, 1), (0, 3), (4, 2), (5, 0), (6, 0)]
+    triples = [(0, 6, 2), (0, 1, 2), (3, 4, 5), (2, 7, 6)]
 
     def check_threads(idx, choices=(), prefer=None, origin=''):
         reqs = [pool[i] for i in idx]
@@ -361,7 +396,7 @@ def run(ctx):
 
     # ---- leg B (threads): preemption-bounded DFS over real schedules ---------------------------
     P = ctx.pick(2, 3)
-    for idx in (pairs[:ctx.pick(3, 6)] + triples[:ctx.pick(1, 3)]):
+    for idx in (pairs[:ctx.pick(4, 8)] + triples[:ctx.pick(1, 4)]):
         stack = [[]]
         budget = ctx.pick(400, 6000)
         while stack and budget > 0:
@@ -401,7 +436,7 @@ def run(ctx):
     ctx.extra['tlc_task_schedules'] = len(tscheds)
     serial_t = serial_tasks(pool)
     step = max(1, len(tscheds) // ctx.pick(150, 924))
-    combos = pairs + [(2, 2), (3, 0)]
+    combos = pairs + [(3, 0), (7, 2)]
     n = 0
     for k, sc in enumerate(tscheds[::step]):
         idx = combos[k % len(combos)]
@@ -434,7 +469,7 @@ def run(ctx):
 
 def replay(ctx, case):
     pool = request_pool()
-    names = ['GET /a/3', 'GET /b/7', 'POST /a/5', 'GET /b/13 (400)', 'GET /a/nope (404)', 'PUT /b/2 (405)']
+    names = NAMES
     idx = [names.index(n) for n in case['requests']]
     reqs = [pool[i] for i in idx]
     if case['kind'] == 'threads':
